@@ -97,6 +97,9 @@ fn main() {
         "flavour" => {
             let scripts = arg_u64(&args, "--scripts", 12) as usize;
             let r = flavour::differential(&mut rng, scripts, ops);
+            for d in &r.details {
+                out.line(&format!("flavour-mismatch {}", d.replace(' ', "_")));
+            }
             out.line(&format!(
                 "flavour scripts={} steps={} mismatches={} seed_mismatch={} detail={}",
                 r.scripts, r.steps, r.mismatches, r.skipped_seed_mismatch,
@@ -118,6 +121,7 @@ fn main() {
                     "ttl_mix" => live::ttl_mix(rounds * 1500),
                     "workers_exit" => live::workers_exit((rounds / 5).max(12)),
                     "async_barrier" => live::async_barrier(rounds),
+                    "async_protocol_storm" => live::async_protocol_storm((rounds / 4).max(10), seed),
                     "invariants" => invariants::sync_invariants((rounds / 10).max(10), seed, &arg(&args, "--prop").unwrap_or_else(|| "all".to_string())),
                     "async_invariants" => invariants::async_invariants((rounds / 10).max(10), seed, &arg(&args, "--prop").unwrap_or_else(|| "all".to_string())),
                     "remove_full" => live::remove_full((rounds / 10).max(10), false),
